@@ -133,6 +133,68 @@ def nested_mask_cases():
     return out
 
 
+DECOYS = {"float2": "float4", "float3": "float4", "int2": "int4", "int3": "int4", "uint2": "uint4", "uint3": "uint4"}
+
+
+def decoy_for(decl, acc):
+    """a function placed *before* the probed one in which the very same access text is valid (same variable name, a bigger
+    type): a validator that remembers verdicts by text, name or position instead of by node and type is fooled by it"""
+    import re
+    if decl in DECOYS:
+        return "function decoy (%s t) -> void {\n  %s;\n}\n" % (DECOYS[decl], acc)
+    m = re.match(r"^(int|float)((\[\d+\])+)$", decl)
+    if m:
+        dims = "".join("[9]" for _ in re.findall(r"\[\d+\]", m.group(2)))
+        return "function decoy (%s%s t) -> void {\n  %s;\n}\n" % (m.group(1), dims, acc)
+    return None
+
+
+def context_cases():
+    """one out-of-range / in-range constant access placed in every syntactic context an expression can occur in"""
+    out = []
+    ctxs = {
+        "index-of-index": "int r = u[{A}];",
+        "index-of-index-expr": "int r = u[{A} + 1];",
+        "call-argument": "int r = h({A});",
+        "binary-operand": "int r = 1 + {A} * 2;",
+        "assignment-target": "{A} = 3;",
+        "assignment-value": "int r; r = {A};",
+        "compound-assignment": "{A} += 2;",
+        "condition": "if ({A} > 0) {{ }}",
+        "while-condition": "while ({A} > 99) {{ }}",
+        "for-header": "for (int i = {A}; i < 1; ++i) {{ }}",
+        "for-next": "for (int i = 0; i < 1; i = i + 1 + {A}) {{ }}",
+        "return-value": "return {A};",
+        "constructor-argument": "int2 r = int2({A}, 1);",
+        "nested-call": "int r = h(h({A}));",
+    }
+    for cname, tmpl in ctxs.items():
+        for k in (-1, 0, 3, 4, 7):
+            a = "t[%d]" % k
+            ok = 0 <= k < 4
+            out.append(("context:" + cname, "int[4]", tmpl.format(A=a), ok, True, None, "u"))
+    for cname, tmpl in (("member-of-element", "float r = p[{K}].x;"), ("element-of-member", "int r = s.arr[{K}];")):
+        for k in (-1, 0, 1, 2, 5):
+            out.append(("context:" + cname, "int[4]", tmpl.format(K=k), 0 <= k < 2, True, None, "ps"))
+    return out
+
+
+def source_for_ctx(stmt, extra):
+    lines = []
+    if extra == "ps":
+        lines.append("struct S {\n  int[2] arr;\n}")
+        sig = "int[4] t, float3[2] p, S s"
+    else:
+        sig = "int[4] t, int[9] u"
+    lines.append("function h (int v) -> int {\n  return v;\n}")
+    lines.append("export function f (%s) -> int {" % sig)
+    lines.append("  " + stmt)
+    if not stmt.startswith("return"):
+        lines.append("  return 0;")
+    lines.append("}")
+    return "\n".join(lines) + "\n"
+
+
 def source_for(decl, accesses, index_var_type=None):
     lines = ["export function f (%s t%s) -> void {" % (decl, (", %s i" % index_var_type) if index_var_type else "")]
     for a in accesses:
@@ -173,8 +235,14 @@ def detail_key(fam, decl, acc, predicted, dims_hint=""):
     return "%s:%s%s" % (fam, "accepted-should-reject" if not predicted else "rejected-should-accept", side if not predicted else "")
 
 
-def check_reject(R, fam, decl, acc, ivt, interesting):
+def check_reject(R, fam, decl, acc, ivt, interesting, with_decoy=False):
     src = source_for(decl, [acc], ivt)
+    if with_decoy:
+        d = decoy_for(decl, acc)
+        if d is None:
+            return
+        src = d + src
+        fam = fam + "+decoy"
     out = nslapi.compile_source(src)
     R.evaluations += 1
     R.count("predicted_reject_programs")
@@ -240,6 +308,8 @@ def run_cases(R, cases, shard, n, tier, rng, slice_frac):
                 acc_ok.append((acc, interesting))
             else:
                 check_reject(R, fam, decl, acc, ivt, interesting)
+                if ivt is None and (fam != "mask" or rng.random() < 0.3):
+                    check_reject(R, fam, decl, acc, ivt, interesting, with_decoy=True)
         for j in range(0, len(acc_ok), 20):
             check_accept_batch(R, fam, decl, acc_ok[j:j + 20], ivt)
 
@@ -253,6 +323,23 @@ def run_shard(tier, seed, shard, n, R):
     run_cases(R, spelled_constant_cases(), shard, n, tier, rng, 1.0)
     run_cases(R, mask_cases(), shard, n, tier, rng, 1.0 if full else 0.12)
     run_cases(R, nested_mask_cases(), shard, n, tier, rng, 1.0)
+    for i, (fam, decl, stmt, ok, interesting, ivt, extra) in enumerate(context_cases()):
+        if i % n != shard:
+            continue
+        src = source_for_ctx(stmt, extra)
+        out = nslapi.compile_source(src)
+        R.evaluations += 1
+        R.nontriv(fam, stmt)
+        if out.reject is not None and out.reject["stage"] == "parse":
+            R.inconclusive.append("context program does not parse: " + src.replace("\n", " "))
+            continue
+        if out.accepted != ok:
+            R.violation("%s:%s" % (fam, "rejected-should-accept" if ok else "accepted-should-reject"),
+                        "`%s` is %s; the constant index is %s its dimension" % (stmt, "rejected" if ok else "accepted", "inside" if ok else "outside"),
+                        {"sources": {"main": src}, "family": fam, "predicted": "accept" if ok else "reject", "reject": out.reject})
+        else:
+            R.count("context_cases_as_predicted")
+    R.flags["constant_access_in_every_expression_context"] = True
     R.flags["vector_matrix_index_grid"] = True
     R.flags["index_type_grid"] = True
     R.flags["array_grid"] = full
